@@ -50,6 +50,9 @@ def main():
     ap.add_argument('--prop')
     ap.add_argument('--tier', default='quick')
     ap.add_argument('--other', action='store_true')
+    ap.add_argument('--refactors', action='store_true',
+                    help='run against /verif/refactors/<id>/ (property-'
+                         'preserving changes): the check must stay quiet')
     ap.add_argument('-v', action='store_true')
     args = ap.parse_args()
     with open(os.path.join(VERIF, 'MANIFEST.json')) as f:
@@ -59,7 +62,8 @@ def main():
     rc_all = 0
     results = []
     try:
-        for d in sorted(glob.glob(os.path.join(VERIF, 'seeded', '*'))):
+        kind = 'refactors' if args.refactors else 'seeded'
+        for d in sorted(glob.glob(os.path.join(VERIF, kind, '*'))):
             sid = os.path.basename(d)
             meta_p = os.path.join(d, 'meta.json')
             if not os.path.exists(meta_p):
@@ -78,7 +82,7 @@ def main():
                                 os.path.join(work, 'oslo_utils'),
                                 ignore=shutil.ignore_patterns('__pycache__'))
                 ap_ = subprocess.run(
-                    ['git', 'apply', '--whitespace=nowarn',
+                    ['git', 'apply', '--whitespace=nowarn', '--include=oslo_utils/*',
                      os.path.join(d, 'patch.diff')], cwd=work,
                     stdout=subprocess.PIPE, stderr=subprocess.STDOUT,
                     text=True)
@@ -86,7 +90,8 @@ def main():
                     print('%s: patch does not apply: %s' % (sid, ap_.stdout))
                     rc_all = 1
                     continue
-                demo = os.path.join(d, 'demo.py')
+                demo = os.path.join(d, 'evidence.py' if args.refactors
+                                    else 'demo.py')
                 d_patched = subprocess.run([PY, demo, work],
                                            stdout=subprocess.PIPE,
                                            stderr=subprocess.STDOUT,
@@ -111,6 +116,9 @@ def main():
                             others.append(p2 + '(harness-error)')
                 status = 'CAUGHT' if caught else (
                     'HARNESS-ERROR' if rc == 2 else 'MISSED')
+                if args.refactors:
+                    status = {'CAUGHT': 'FALSE-ALARM', 'MISSED': 'QUIET',
+                              'HARNESS-ERROR': 'HARNESS-ERROR'}[status]
                 print('%s %s: %s rc=%d %.1fs demo(patched=%d clean=%d) %s%s'
                       % (sid, prop, status, rc, dt, d_patched, d_clean,
                          meta.get('title', ''),
@@ -120,7 +128,12 @@ def main():
                     print('   ', line[0].strip()[:260])
                 if rc == 2 or (args.v and not caught):
                     print('    ' + '\n    '.join(txt.splitlines()[-8:]))
-                if not caught or d_patched == 0 or d_clean != 0:
+                if args.refactors:
+                    if status != 'QUIET' or d_patched != 0 or d_clean != 0:
+                        rc_all = 1
+                        if status == 'FALSE-ALARM' and line:
+                            print('   ', line[0].strip()[:400])
+                elif not caught or d_patched == 0 or d_clean != 0:
                     rc_all = 1
                 results.append((sid, status))
             finally:
@@ -128,6 +141,11 @@ def main():
     finally:
         shutil.rmtree(out, ignore_errors=True)
     n = len(results)
+    if args.refactors:
+        c = sum(1 for _s, st in results if st == 'QUIET')
+        print('property-preserving refactors: %d, quiet under their '
+              'property\'s %s check: %d' % (n, args.tier, c))
+        return rc_all
     c = sum(1 for _s, st in results if st == 'CAUGHT')
     print('seeded changes: %d, caught by their property\'s %s check: %d'
           % (n, args.tier, c))
